@@ -141,6 +141,10 @@ type Spec struct {
 	Users    []UserSpec        `json:"users,omitempty"`
 	Requests []RequestSpec     `json:"requests,omitempty"`
 	Faults   []Fault           `json:"faults,omitempty"`
+	// LenientLookup makes GetEntityByID match entity ids case-insensitively and ignoring
+	// surrounding blanks and a trailing slash, like a storage backed by a case-insensitive
+	// collation would: the IdP must then itself insist on Issuer == entityID.
+	LenientLookup bool `json:"lenient_lookup,omitempty"`
 }
 
 // MetadataXML renders the SP metadata through the harness's own writer.
